@@ -592,7 +592,37 @@ func (g *pg) boolE(d int) *ir.Expr {
 	if d <= 0 {
 		return g.boolLeaf()
 	}
-	switch rapid.IntRange(0, 15).Draw(rt, "boolprod") {
+	switch rapid.IntRange(0, 16).Draw(rt, "boolprod") {
+	case 16:
+		// a collection literal whose elements have no common type, one of them a union of entity types and another a
+		// member of that union (the error report has to order and name all of them), in every element order
+		if g.slip("collection-of-incompatible-elements") {
+			names := g.entityNames()
+			if len(names) >= 2 {
+				perm := rapid.Permutation(names).Draw(rt, "incperm")
+				a := ir.Lit(ir.Ent(perm[0], gen.Pick(rt, g.ids(perm[0]), "incid")))
+				b := ir.Lit(ir.Ent(perm[1], gen.Pick(rt, g.ids(perm[1]), "incid")))
+				union := ir.If(g.boolLeaf(), a, b)
+				if gen.Chance(rt, 50, "incswap") {
+					union = ir.If(g.boolLeaf(), b.Clone(), a.Clone())
+				}
+				odd := gen.Pick(rt, []*ir.Expr{ir.Lit(ir.Long(1)), ir.Lit(ir.Str("s")), ir.Lit(ir.Bool(true)), ir.RecE([]string{"a"}, []*ir.Expr{ir.Lit(ir.Long(1))}), ir.SetE(ir.Lit(ir.Long(1)))}, "incodd")
+				elems := []*ir.Expr{union, gen.Pick(rt, []*ir.Expr{a, b}, "incmember").Clone(), odd}
+				if gen.Chance(rt, 40, "incfour") {
+					elems = append(elems, gen.Pick(rt, []*ir.Expr{a, b}, "incmember2").Clone())
+				}
+				order := rapid.Permutation(elems).Draw(rt, "incorder")
+				switch rapid.IntRange(0, 2).Draw(rt, "incuse") {
+				case 0:
+					return ir.Un(ir.OpIsEmpty, ir.SetE(order...))
+				case 1:
+					return ir.Bin(ir.OpContains, ir.SetE(order...), a.Clone())
+				default:
+					return ir.Bin(ir.OpEq, ir.SetE(order...), ir.SetE(order[:2]...))
+				}
+			}
+		}
+		return g.guarded(d)
 	case 0:
 		// plain conjunction; guards that must flow from left to right are built by guarded()
 		return ir.Bin(ir.OpAnd, g.boolE(d-1), g.boolE(d-1))
